@@ -302,6 +302,9 @@ func runOTInterface(res *Result, kind string, n int, flags []bool, rng *rand.Ran
 	if kind != "rsa" {
 		batches = 2 // a second batch on the initialised instance
 	}
+	// an empty batch between the two (COT / ROT): whatever the sender transmits for it must be consumed by the
+	// receiver, or the following batch is read out of step
+	emptyBetween := (kind == "cot" || kind == "cotm" || kind == "rot" || kind == "rotm") && n%2 == 1
 	var wg sync.WaitGroup
 	var es, er error
 	result := make([][]ot.Label, batches)
@@ -319,6 +322,12 @@ func runOTInterface(res *Result, kind string, n int, flags []bool, rng *rand.Ran
 			}
 			sentWires[b] = w
 			sc.Flush()
+			if emptyBetween && b == 0 {
+				if es = sOT.Send(nil); es != nil {
+					return
+				}
+				sc.Flush()
+			}
 		}
 	}()
 	go func() {
@@ -330,6 +339,11 @@ func runOTInterface(res *Result, kind string, n int, flags []bool, rng *rand.Ran
 			result[b] = make([]ot.Label, n)
 			if er = rOT.Receive(flags, result[b]); er != nil {
 				return
+			}
+			if emptyBetween && b == 0 {
+				if er = rOT.Receive(nil, nil); er != nil {
+					return
+				}
 			}
 		}
 	}()
